@@ -264,10 +264,25 @@ class _mark_ignore_name(ast.NodeTransformer):
 
 
 class _rewrite_captured_vars(ast.NodeTransformer):
-    def __init__(self, cv: inspect.ClosureVars):
+    def __init__(self, cv: inspect.ClosureVars, helpers_in_progress: Optional[List[Any]] = None):
         self._lookup_dict: Dict[str, Any] = dict(cv.nonlocals)
         self._lookup_dict.update(cv.globals)
         self._ignore_stack = []
+        self._helpers_in_progress: List[Any] = (
+            helpers_in_progress if helpers_in_progress is not None else []
+        )
+
+    def _resolve_helper(self, helper: Callable, helper_ast: ast.Lambda) -> ast.Lambda:
+        """The body of a captured helper refers to the helper's own globals and closure, not to
+        ours: resolve them there (unless we are already inside this helper - recursion)."""
+        if any(helper is h for h in self._helpers_in_progress):
+            return helper_ast
+        try:
+            helper_cv = global_getclosurevars(helper)
+        except TypeError:
+            return helper_ast
+        resolver = _rewrite_captured_vars(helper_cv, self._helpers_in_progress + [helper])
+        return resolver.visit(helper_ast)
 
     def visit_Name(self, node: ast.Name) -> Any:
         if self.is_arg(node.id):
@@ -288,7 +303,7 @@ class _rewrite_captured_vars(ast.NodeTransformer):
                 # like that.
                 return as_literal(v)
             elif callable(v) and ((lm := safe_parse_wrapper(v)) is not None):
-                return lm
+                return self._resolve_helper(v, lm)
             else:
                 # If it is a local function, we need to parse it as an AST
                 return node
